@@ -1,6 +1,6 @@
 //! C20 — every output format renders the same route, with geometry in edge order.
 use super::{MonOut, Tier};
-use crate::appgen::{build_app, edge_geometry, silence_stderr, uuid_of, AppSpec, OutputPlugin};
+use crate::appgen::{build_app, edge_geometry, silence_stderr, uuid_for, AppSpec, OutputPlugin};
 use crate::hooks::{catch, panic_sig, with_ctx};
 use crate::par::par_cases;
 use crate::report::Report;
@@ -183,6 +183,7 @@ fn case(tier: Tier, rng: &mut Rng, rep: &mut Report) {
     spec.geom_truncate = if rng.chance(0.3) { rng.urange(1, (net.ne() / 2).max(1)) } else { 0 };
     spec.gzip = rng.chance(0.2);
     spec.geom_repeat = rng.chance(0.4);
+    spec.uuid_blanks = rng.chance(0.3);
     let app_route_fmt = rng.below(5);
     let app_tree_fmt = rng.below(6);
     let app_route_only_tree = app_tree_fmt < 5 && rng.chance(0.25);
@@ -348,8 +349,8 @@ fn case(tier: Tier, rng: &mut Rng, rep: &mut Report) {
                     let mut out = json!({"request": query});
                     match catch(|| up.process(&mut out, &result)) {
                         Ok(Ok(())) => {
-                            if out["origin_vertex_uuid"].as_str() != Some(uuid_of(o).as_str()) || out["destination_vertex_uuid"].as_str() != Some(uuid_of(d).as_str()) {
-                                rep.violate("C20|UUIDOutputPlugin|wrong-identifier", format!("D7 identifiers {} / {} for vertices {o} / {d} (stored {} / {})", out["origin_vertex_uuid"], out["destination_vertex_uuid"], uuid_of(o), uuid_of(d)), replay);
+                            if out["origin_vertex_uuid"].as_str() != Some(uuid_for(&spec, o).as_str()) || out["destination_vertex_uuid"].as_str() != Some(uuid_for(&spec, d).as_str()) {
+                                rep.violate("C20|UUIDOutputPlugin|wrong-identifier", format!("D7 identifiers {} / {} for vertices {o} / {d} (stored {} / {})", out["origin_vertex_uuid"], out["destination_vertex_uuid"], uuid_for(&spec, o), uuid_for(&spec, d)), replay);
                             }
                         }
                         Ok(Err(e)) => rep.violate("C20|UUIDOutputPlugin|error", format!("D7 {e}"), replay),
@@ -432,7 +433,7 @@ fn case(tier: Tier, rng: &mut Rng, rep: &mut Report) {
                             rep.violate(&format!("C20|CompassApp::run|response-route-differs|{rf}"), format!("the application's response renders another route than the plugin on the same query: {} vs {}", strip(&r["route"]).to_string().chars().take(400).collect::<String>(), strip(direct).to_string().chars().take(400).collect::<String>()), replay);
                         }
                     }
-                    if with_dest && (r["origin_vertex_uuid"].as_str() != Some(uuid_of(o).as_str()) || r["destination_vertex_uuid"].as_str() != Some(uuid_of(d).as_str())) {
+                    if with_dest && (r["origin_vertex_uuid"].as_str() != Some(uuid_for(&spec, o).as_str()) || r["destination_vertex_uuid"].as_str() != Some(uuid_for(&spec, d).as_str())) {
                         rep.violate("C20|CompassApp::run|wrong-identifier", format!("D7 identifiers {} / {} for vertices {o} / {d}", r["origin_vertex_uuid"], r["destination_vertex_uuid"]), replay);
                     }
                     rep.count("application_responses_confirmed", 1);
@@ -453,7 +454,7 @@ pub fn run(tier: Tier, seed: u64) -> MonOut {
     crate::appgen::restore_stderr(saved);
     MonOut {
         report: rep,
-        rule: "generated networks with geometry tables of 2..6-point linestrings per edge (intermediate points unique to the edge; in 40 % of the tables every third edge repeats one of its points), 30 % with the last rows missing, plain or gzip; real search results (Dijkstra / A* / single-via k 2..4, with and without destination) rendered by the real TraversalPlugin in all five formats for routes and trees, by SummaryOutputPlugin and UUIDOutputPlugin, and by CompassApp::run with a randomly configured format pair; WKT and WKB are decoded with the wkt / wkb crates. non-trivial = a route of >= 2 edges; distinct by (network, routes, geometry layout)".into(),
+        rule: "generated networks with geometry tables of 2..6-point linestrings per edge (intermediate points unique to the edge; in 40 % of the tables every third edge repeats one of its points); identifier tables of which 30 % leave every fifth row blank, 30 % with the last rows missing, plain or gzip; real search results (Dijkstra / A* / single-via k 2..4, with and without destination) rendered by the real TraversalPlugin in all five formats for routes and trees, by SummaryOutputPlugin and UUIDOutputPlugin, and by CompassApp::run with a randomly configured format pair; WKT and WKB are decoded with the wkt / wkb crates. non-trivial = a route of >= 2 edges; distinct by (network, routes, geometry layout)".into(),
         assumptions: vec![
             "the reference for every format is the SearchAppResult handed to the plugin (edge sequence, serialized edge traversals) and the generator's geometry table".into(),
             "coordinates compare exactly for WKB (f32 widened to f64) and exactly after narrowing to f32 for WKT / GeoJSON text".into(),
